@@ -22,16 +22,25 @@ def _mk(start, end):
   return io.SequenceDataSource(data, _start=start, _end=end)
 
 
+def _partition_ok(ivs, s, e):
+  """the k intervals are contiguous in order, cover [s, e) exactly and their sizes differ by at most one (which shards get
+  the larger size is not fixed by the property)"""
+  sizes = [hi - lo for lo, hi in ivs]
+  return (ivs[0][0] == s and ivs[-1][1] == e and all(ivs[j][1] == ivs[j + 1][0] for j in range(len(ivs) - 1))
+          and all(x >= 0 for x in sizes) and max(sizes) - min(sizes) <= 1)
+
+
 def replay_shard(p):
   w = p['witness']
   s, e, i, k, off = w['start'], w['end'], w['shard_index'], w['num_shards'], w.get('offset', 0)
-  if k < 1 or not 0 <= i < k or s > e or s < 0:
+  if k < 1 or not 0 <= i < k or s > e or s < 0 or k > 200:
     return dict(violated=False, detail='witness outside the replayable domain (not a constructible source)')
   src = _mk(s, e)
+  ivs = [(x._start, x._end) for x in (src.shard(j, k) for j in range(k))]
   got = src.shard(i, k, off)
-  lo, hi = _parts(s, e, k)[i]
-  ok = (got._start, got._end) == (lo + off, hi)
-  return dict(violated=not ok, detail=f'shard({i},{k},{off}) of [{s},{e}) -> [{got._start},{got._end}) expected [{lo + off},{hi})')
+  ok = _partition_ok(ivs, s, e) and (got._start, got._end) == (ivs[i][0] + off, ivs[i][1])
+  return dict(violated=not ok, detail=f'the {k} shards of [{s},{e}) are {ivs}; shard({i},{k},offset={off}) -> [{got._start},{got._end}): '
+              'not an ordered partition into parts whose sizes differ by at most one (or the offset is not added to the start)')
 
 
 def bounded_shard(p):
@@ -45,11 +54,10 @@ def bounded_shard(p):
     for n in range(N):
       src = io.SequenceDataSource(list(range(n)))
       for k in range(1, K):
-        parts = _parts(s0, s0 + n, k)
         shards = [src.shard(i, k) for i in range(k)]
         got = [(x._start, x._end) for x in shards]
-        if not S.check(got == parts, dict(start=s0, end=s0 + n, num_shards=k, shard_index=next((i for i in range(k) if got[i] != parts[i]), 0), offset=0),
-                       f'shards of [{s0},{s0 + n}) into {k}: {got} expected {parts}'):
+        if not S.check(_partition_ok(got, s0, s0 + n), dict(start=s0, end=s0 + n, num_shards=k, shard_index=0, offset=0),
+                       f'shards of [{s0},{s0 + n}) into {k}: {got} is not an ordered partition into parts whose sizes differ by at most one'):
           return S.result()
         elems = [list(x) for x in shards]
         flat = [y for x in elems for y in x]
